@@ -33,7 +33,7 @@ PROPS = {
     "C13": ["contracts.c13_logics"],
     "C14": ["contracts.c14_walkers", "contracts.c13_logics", "contracts.c12_oracles", "contracts.c04_hashcons"],
     "C15": ["contracts.c14_walkers", "contracts.c16_tracking", "contracts.c04_hashcons"],
-    "C16": ["contracts.c16_tracking"],
+    "C16": ["contracts.c16_tracking", "contracts.c16_script"],
     "C17": ["contracts.c17_smtlib_solver"],
     "C18": ["contracts.c18_optimizer", "contracts.c18_loop", "contracts.c18_multi"],
     "C20": ["contracts.c14_walkers"],
